@@ -17,6 +17,7 @@ RFAULT = {  # fault text F, context needs
     "compare": "{{ 1 < 'a' }}", "bad-subscript": "{{ [1]['a'] }}", "throw": "{{ throw(message='x') }}", "negate-string": "{{ -'a' }}",
     "slice-step-zero": "{{ [1][::0] }}", "component-missing-arg": "{{<need />}}", "unknown-path-in-set": "{% set v = m.x.y %}",
     "across-newline": "{{ 1 +\n 'a' }}", "spread-non-map": "{{ {...1} }}", "in-scalar": "{{ 1 in 2 }}",
+    "set-block-first-filter": "{% set sv | round | int %}3.7{% endset %}",
 }
 SFAULT = {"dangling-operator": "{{ 1 + }}", "empty-if": "{% if %}x{% endif %}", "stray-endfor": "{% endfor %}", "unterminated-string": "{{ 'abc }}",
           "unknown-tag": "{% foo %}", "double-dot": "{{ a..b }}", "unclosed-expression": "{{ 1", "unclosed-tag": "{% if 1", "missing-endif": "{% if 1 %}x",
@@ -25,7 +26,8 @@ SFAULT = {"dangling-operator": "{{ 1 + }}", "empty-if": "{% if %}x{% endif %}", 
           "unclosed-tag-nl": "{% if 1\n", "unclosed-expression-nl": "{{ 1\n", "missing-endif-nl": "{% if 1 %}x\n", "unclosed-comment-nl": "{# c\n\n"}
 # the offending token inside the fault text, where there is no doubt which one it is
 FOCUS = {"undefined-var": "nope", "undefined-field": "x", "unknown-path-in-set": "x", "filter-missing-arg": "replace", "component-missing-arg": "need",
-         "divide-by-zero": "0", "bad-subscript": "'a'", "iterate-scalar": " 1 ", "in-scalar": "2", "spread-non-map": "1"}
+         "divide-by-zero": "0", "bad-subscript": "'a'", "iterate-scalar": " 1 ", "in-scalar": "2", "spread-non-map": "1",
+         "set-block-first-filter": "round"}
 PREFIX = {"none": "", "ascii": "ab ", "two-byte": "é", "three-byte": "世世", "four-byte": "\U0001F600", "line2": "x\n", "line3-multibyte": "é\n世 \n  "}
 NEED = "{% component need(a) %}{{ a }}{% endcomponent need %}"
 ONECHAR = ["\u00ab", "\u00bb", "\u00bf", "\u00a1", "\u00a7", "\u00b6"]      # block start/end, variable start/end, comment start/end
